@@ -9,7 +9,7 @@ from harness import core, gen
 
 RULE = ("paired executions of the same final get_estimates call (and national summary) compared bit for bit: twice in one process on one client; on a "
         "fresh client; after 1-3 earlier calls with different arguments and a different estimator (history); with the global numpy / python generators "
-        "re-seeded differently before every call; in subprocesses under PYTHONHASHSEED in {0, 1, 4242}; all three estimators, with features and fixed "
+        "re-seeded differently before every call; the national summary after three earlier summaries on the same client; in subprocesses under PYTHONHASHSEED in {0, 1, 4242}; all three estimators, with features and fixed "
         "effects. distinct = (estimator, kind of pairing); non-trivial = both executions completed")
 
 HASHSEEDS = ["0", "1", "4242"]
@@ -43,6 +43,8 @@ def worker(job):
     if pi != "bootstrap":
         kw["features"] = rng.choice([[], ["feat_a"]])
         kw["fixed_effects"] = rng.choice([{}, {"county_classification": "all"}])
+    if pi == "bootstrap":
+        kw["office"] = rng.choice(["S", "P", "S", "H"])      # mostly offices that have a national summary
     final = gen.gen_case(rng, pi_method=pi, n_unexpected=rng.choice([0, 1]), **kw)
     if pi == "bootstrap" and "postal_code" not in final["params"]["aggregates"]:
         final["params"]["aggregates"].append("postal_code")
@@ -56,12 +58,16 @@ def worker(job):
         "global-rng-perturbed": {"cases": [final], "nat_sum": nat, "perturb_global_rng": True, "rng_salt": 7},
         "global-rng-perturbed-2": {"cases": [final, final], "nat_sum": nat, "perturb_global_rng": True, "rng_salt": 99},
     }
+    if nat:
+        scenarios["summary-after-summaries"] = {"cases": [final], "nat_sum": True, "nat_sum_history": True}
     res = {}
     ref = sub_run(scenarios["plain"], "0", f"{seed}_ref")
     res["ref"] = ref
     out = {"job": list(job), "office": final["office"], "pairs": [], "ref_ok": ref.get("ok"), "ref_exc": ref.get("exc")}
     runs = [("hashseed-1", scenarios["plain"], "1"), ("hashseed-4242", scenarios["plain"], "4242")]
-    for name in ("twice-same-client", "fresh-client-after-history", "same-client-after-history", "global-rng-perturbed", "global-rng-perturbed-2"):
+    for name in ("twice-same-client", "fresh-client-after-history", "same-client-after-history", "global-rng-perturbed", "global-rng-perturbed-2", "summary-after-summaries"):
+        if name not in scenarios:
+            continue
         runs.append((name, scenarios[name], HASHSEEDS[(seed + len(name)) % 3]))
     for name, sc, hs in runs:
         r = sub_run(sc, hs, f"{seed}_{name}")
